@@ -216,6 +216,14 @@ def check(spec, ctx):
         results.append(res)
     ctx.case(spec, nontrivial=nontrivial, labels=labels, out={"type": results[0].type})
 
+    # a geometry that went through pickle (worker processes, caches) is buffered like the original
+    import pickle
+
+    try:
+        if geometry.buffer_geometry(pickle.loads(pickle.dumps(g)), time_buffer=tb, freq_buffer=fb) != results[0]:
+            ctx.fail("buffer_geometry of the unpickled geometry differs from the result for the original", spec, None, None, kind="pickle")
+    except Exception as e:
+        ctx.fail(f"buffer_geometry of the unpickled geometry raised {type(e).__name__} although the original was buffered", spec, repr(e)[:200], None, kind="pickle")
     # buffers passed positionally (documented order: geometry, time_buffer, freq_buffer)
     try:
         if geometry.buffer_geometry(g, tb, fb) != results[0]:
